@@ -93,6 +93,8 @@ type termEval struct {
 	busy   map[termKey]bool
 	// noInline(fn) true keeps a call to fn as an opaque call term (anchors a rule wants to see by name)
 	noInline func(*ssa.Function) bool
+	// blockOK (optional) restricts callsOf/effectsOf to the blocks that are feasible (e.g. in one output mode)
+	blockOK func(*ssa.Function, *ssa.BasicBlock) bool
 }
 
 type termKey struct {
@@ -466,6 +468,9 @@ func (e *termEval) effectsOf(fn *ssa.Function, follow func(*ssa.Function) bool) 
 	var walk func(f *ssa.Function, c *tctx, chain []ssa.CallInstruction)
 	walk = func(f *ssa.Function, c *tctx, chain []ssa.CallInstruction) {
 		for _, b := range f.Blocks {
+			if e.blockOK != nil && !e.blockOK(f, b) {
+				continue
+			}
 			for _, in := range b.Instrs {
 				switch x := in.(type) {
 				case *ssa.Store:
@@ -533,4 +538,91 @@ func (ef *Effect) guardsWithChain() []guard {
 		gs = append(gs, guardsOf(cs.Block())...)
 	}
 	return gs
+}
+
+// ---- calls with helper expansion -------------------------------------------------
+
+// CallSite is a call instruction of fn or of a helper entered from it, with the context needed to
+// evaluate its arguments as terms over fn's parameters.
+type CallSite struct {
+	Instr ssa.CallInstruction
+	Fn    *ssa.Function
+	Ctx   *tctx
+	Chain []ssa.CallInstruction
+}
+
+// callsOf lists the calls of fn and of the repository functions it calls statically for which follow()
+// holds (bounded depth, no recursion), in block order. The second result is the set of functions entered.
+func (e *termEval) callsOf(fn *ssa.Function, follow func(*ssa.Function) bool) ([]CallSite, map[*ssa.Function]bool) {
+	var out []CallSite
+	region := map[*ssa.Function]bool{fn: true}
+	var walk func(f *ssa.Function, c *tctx, chain []ssa.CallInstruction)
+	walk = func(f *ssa.Function, c *tctx, chain []ssa.CallInstruction) {
+		for _, b := range f.Blocks {
+			if e.blockOK != nil && !e.blockOK(f, b) {
+				continue
+			}
+			for _, in := range b.Instrs {
+				cs, ok := in.(ssa.CallInstruction)
+				if !ok {
+					continue
+				}
+				out = append(out, CallSite{cs, f, c, chain})
+				cal := calleeOf(cs)
+				if cal == nil || len(cal.Blocks) == 0 || !e.inRepo(cal) || cal == fn || (c != nil && (c.depth() >= 4 || c.onStack(cal))) {
+					continue
+				}
+				if follow != nil && !follow(cal) {
+					continue
+				}
+				var args []*Term
+				for _, a := range cs.Common().Args {
+					args = append(args, e.eval(a, c))
+				}
+				region[cal] = true
+				walk(cal, &tctx{fn: cal, args: args, parent: c, site: cs}, append(append([]ssa.CallInstruction(nil), chain...), cs))
+			}
+		}
+	}
+	walk(fn, nil, nil)
+	return out, region
+}
+
+// outerInstrs: the instruction of the site at each nesting level (chain..., instr).
+func (s CallSite) levels() []ssa.Instruction {
+	var out []ssa.Instruction
+	for _, c := range s.Chain {
+		out = append(out, c)
+	}
+	return append(out, s.Instr)
+}
+
+// orderedBefore: a happens before b on every path (compared in the innermost function both belong to).
+func orderedBefore(a, b CallSite) bool {
+	la, lb := a.levels(), b.levels()
+	for k := 0; k < len(la) && k < len(lb); k++ {
+		if la[k] == lb[k] {
+			continue
+		}
+		if la[k].Parent() != lb[k].Parent() {
+			return false
+		}
+		return after(la[k], lb[k]) && !after(lb[k], la[k])
+	}
+	return false
+}
+
+func (s CallSite) guards() []guard {
+	gs := append([]guard(nil), guardsOf(s.Instr.Block())...)
+	for _, cs := range s.Chain {
+		gs = append(gs, guardsOf(cs.Block())...)
+	}
+	return gs
+}
+
+// privateHelper: an unexported, non-method-of-interface function of package slog (the unit a refactoring may cut code into).
+func privateHelper(p *Prog) func(*ssa.Function) bool {
+	return func(f *ssa.Function) bool {
+		return f.Pkg == p.Slog && f.Object() != nil && !f.Object().Exported()
+	}
 }
